@@ -30,6 +30,9 @@ C13 = [
     (LT, 'layered-no-collapse-on-compliance-change', "        if collapse_tidal_modes:\n            self.collapse_modes()", "        if False:\n            self.collapse_modes()"),
     (RH, 'rheology-strength-change-skips-compliance', "                self.complex_compliance_model.calculate()\n\n                # Tell the rheology class that the complex compliances have changed.\n                self.complex_compliances_changed()\n",
      "                if self.complex_compliances is None:\n                    self.complex_compliance_model.calculate()\n\n                # Tell the rheology class that the complex compliances have changed.\n                self.complex_compliances_changed()\n"),
+    (OB, 'set_states-skips-orbit_changed', "                call_orbit_change=call_orbit_change,\n                set_stellar_orbit=set_stellar_orbit,\n                set_by_world=set_by_world\n                )",
+     "                call_orbit_change=False,\n                set_stellar_orbit=set_stellar_orbit,\n                set_by_world=set_by_world\n                )"),
+    (OB, 'host-caller-does-not-tell-the-raiser', "            elif set_by_tidal_host:", "            elif False:"),
 ]
 
 C17 = [
@@ -40,7 +43,7 @@ C17 = [
     (OB, 'kepler-host-mass-only', "        orbital_motion = semi_a2orbital_motion(semi_major_axis, host_mass, world_mass)", "        orbital_motion = semi_a2orbital_motion(semi_major_axis, host_mass)"),
     (OB, 'period-setter-stale-axis', "            self.set_semi_major_axis(\n                world_index, new_semi_major_axis, called_from_orbit=True,\n                set_stellar_orbit=set_stellar_orbit\n                )\n            self.set_orbital_frequency(\n                world_index, new_orbital_frequency, called_from_orbit=True,",
      "            self.set_orbital_frequency(\n                world_index, new_orbital_frequency, called_from_orbit=True,"),
-    (CV, 'rads2days-wrong-constant', "86400.", "86164."),
+    (OB, 'orbit-getter-period-from-wrong-slot', "        return self.orbital_periods[world_index]", "        return self.orbital_periods[world_index - 1 if world_index > 1 else world_index]"),
 ]
 
 
